@@ -16,8 +16,10 @@ open Mesa.Collect
 inductive PVal (κ : Type) where
   | str (v : κ)            -- `isinstance(values, str)`: one value
   | sized (vs : List κ)    -- list | tuple | set: iterated, empty → ValueError
-  | iter (vs : List κ)     -- any other iterable (range, dict, generator): iterated, may be empty
+  | iter (vs : List κ)     -- any other re-iterable (range, dict): iterated, may be empty
   | scalar (v : κ)         -- iteration raises TypeError: one value
+  | once (vs : List κ)     -- a one-shot iterator (generator, `iter(...)`, `map`): yields `vs` the first time it
+                           -- is iterated and nothing afterwards
 deriving Repr, DecidableEq
 
 def PVal.values : PVal κ → Except Err (List κ)
@@ -26,6 +28,12 @@ def PVal.values : PVal κ → Except Err (List κ)
   | .sized vs => .ok vs
   | .iter vs => .ok vs
   | .scalar v => .ok [v]
+  | .once vs => .ok vs
+
+/-- the parameter value after `_make_model_kwargs` has iterated it once -/
+def PVal.spent : PVal κ → PVal κ
+  | .once _ => .once []
+  | pv => pv
 
 abbrev Kwargs (κ : Type) := List (Nat × κ)
 
@@ -63,6 +71,19 @@ def number : Nat → List (Nat × Kwargs κ) → List (Run κ)
 /-- `runs_list`: iterations outermost, every kwargs dict once per iteration -/
 def runList (kws : List (Kwargs κ)) (iterations : Nat) : List (Run κ) :=
   number 0 ((List.range iterations).flatMap fun it => kws.map fun kw => (it, kw))
+
+/-- `for iteration in range(iterations): for kwargs in _make_model_kwargs(parameters): …` — `_make_model_kwargs`
+    is called afresh in every iteration (`n` iterations to go, the next one numbered `it`), and every call
+    iterates the parameter values: one-shot iterators are spent after the first -/
+def iterLoop : Nat → Nat → List (Nat × PVal κ) → Except Err (List (Nat × Kwargs κ))
+  | 0, _, _ => .ok []
+  | n + 1, it, params =>
+    match makeKwargs params with
+    | .error e => .error e
+    | .ok kws =>
+      match iterLoop n (it + 1) (params.map fun p => (p.1, p.2.spent)) with
+      | .error e => .error e
+      | .ok rest => .ok (kws.map (fun kw => (it, kw)) ++ rest)
 
 structure Prog where
   cfg : Cfg
@@ -140,11 +161,11 @@ def batchOrder (cls : Kwargs κ → Prog) (maxSteps : Nat) (period : Int) (order
   | .error e => .error e
   | .ok rows => .ok rows.flatten
 
-/-- `batch_run(..., number_processes=1)` -/
+/-- `batch_run(..., number_processes=1)` (`display_progress` only drives the tqdm bar) -/
 def batchRun (cls : Kwargs κ → Prog) (params : List (Nat × PVal κ)) (iterations maxSteps : Nat) (period : Int) :
     Except Err (List (BRow κ)) :=
-  match makeKwargs params with
+  match iterLoop iterations 0 params with
   | .error e => .error e
-  | .ok kws => batchOrder cls maxSteps period (runList kws iterations)
+  | .ok work => batchOrder cls maxSteps period (number 0 work)
 
 end Mesa.Batch
